@@ -25,6 +25,8 @@ type Unit struct {
 	Required []string
 	ReqProp  string
 	ReqMsg   string
+	// Filter post-processes the violations found (e.g. keeps only minimal deviation sets)
+	Filter func(vs []Violation) []Violation
 	// Post runs after exploration (exists-style clauses, outcome-set comparisons).
 	Post func(e *Explorer) []Violation
 	// Custom replaces the schedule explorer altogether (sequential / enumerative units).
@@ -71,6 +73,9 @@ func RunUnit(u *Unit, shard, nshards int, deadline time.Time, boundOverride int)
 	e := &Explorer{Name: u.Name, Bound: bound, Prune: u.Prune && !u.Sc.UsesFS && os.Getenv("VERIF_NOPRUNE") == "", Shard: shard, NShards: nshards,
 		Deadline: deadline, Run: u.Sc.Runner(dir), Check: u.Check, Goal: u.Goal, EnvChoices: u.Env, NoConfirm: u.NoConfirm}
 	e.Explore()
+	if u.Filter != nil {
+		e.Violations = u.Filter(e.Violations)
+	}
 	res := &UnitResult{Unit: u.Name, Stats: e.Stats, Violations: e.Violations, SigCounts: e.SigCounts(), HarnessErr: e.HarnessErr}
 	for g := range e.Goals {
 		res.Goals = append(res.Goals, g)
